@@ -154,6 +154,26 @@ def check_struct(res, N, bl, strand, frames, gname, seq_checks=True):
         res.trans()
         if o3[0] != "ok" or o3[1] != exp_codon_strs:
             res.deviation("codon.extract_sequence", dict(op="codon-seq", **case), o3[1], exp_codon_strs, sig="codon-seq")
+    # the two documented paths of extract_sequence name one sequence: once the codon locations have been listed the
+    # cached path is taken (anchor: "fast path vs cached codon path"); both also on a chunk that contains the CDS
+    # (offset = first block's start), where chromosome-coordinate codon locations carry no sequence
+    for label, obj_fn in (("cached", lambda: cds3), ("chunk-fast", lambda: mk(bl, strand, frames, genome, (bl[0][0], N))),
+                          ("chunk-cached", lambda: mk(bl, strand, frames, genome, (bl[0][0], N)))):
+        ob = lib.outcome(obj_fn)
+        if ob[0] != "ok":
+            res.deviation("CDSInterval", dict(op="extract_sequence-" + label, **case), ob[1], "object", sig="ctor-raises-" + label)
+            continue
+        if label.endswith("cached"):
+            lib.outcome(lambda: list(ob[1].chunk_relative_codon_locations))  # switches extract_sequence to its cached path
+        o = lib.outcome(lambda: str(ob[1].extract_sequence()))
+        res.trans()
+        res.note("extract_sequence-path", label)
+        c = dict(op="extract_sequence-" + label, **case)
+        if not exp:
+            if o[0] == "ok" and o[1] != "":
+                res.deviation("extract_sequence", c, o[1], "", sig="extract-extra-" + label)
+        elif o[0] != "ok" or o[1] != exp_seq:
+            res.deviation("extract_sequence", c, o[1], exp_seq, sig="extract-seq-" + label)
     if not exp:
         return
     cds4 = mk(bl, strand, frames, genome)
